@@ -26,7 +26,7 @@ On(e) ==
           <<"forged_result_accepted", e.ret.kind = "exc" \/ e.ret.same>>,
           <<"report_returned_as_data", e.sym.ptype # "Report" \/ e.ret.kind = "exc">>,
           <<"client_unusable_after_attack", e.usable_after>> >>
-Api == IF Traces[tid].scenario.op = "walk" THEN "walk" ELSE "single"
+Api == IF Traces[tid].scenario.op \in {"walk", "walk_warn", "bulkwalk"} THEN "walk" ELSE "single"
 Drift(e) == IF Has(e.sym, "bitflip") THEN 0 ELSE IF Caller(Api, Process(Lvl(e), SymMsg(e))).kind = e.ret.kind THEN 0 ELSE 1
 
 TInit == tid \in 1..Len(Traces) /\ l = 1 /\ tverdict = <<"ok", 0>>
